@@ -101,7 +101,11 @@ def world2pixel_single_axis(wcs, *world, pixel_axis=None):
 
     # Now find all the world coordinates that are needed to calculate this
     # world coordinate, using the axis correlation matrix
-    world_dep = wcs.axis_correlation_matrix[:, pixel_axis]
+    # A pixel coordinate depends on all the world coordinates of the block of
+    # coupled axes it belongs to, not only on those that depend directly on it
+    n_world = len(world)
+    needed = dependent_input_axes(wcs, n_world - 1 - pixel_axis, pixel2world=False)
+    world_dep = [(n_world - 1 - iw) in needed for iw in range(n_world)]
 
     for iw, w in enumerate(world):
         if world_dep[iw]:
@@ -173,6 +177,31 @@ def dependent_axes(wcs, axis):
     matrix = wcs.axis_correlation_matrix[::-1, ::-1]
     world_dep = matrix[:, axis:axis + 1]
     return tuple(np.nonzero((world_dep & matrix).any(axis=0))[0])
+
+
+def dependent_input_axes(wcs, axis, pixel2world=True):
+    """
+    Return the input axes that are needed to compute a given output axis.
+
+    If ``pixel2world`` is `True`, return the pixel axes that world axis
+    ``axis`` depends on. Otherwise, return the world axes that pixel axis
+    ``axis`` depends on through the inverse transformation, i.e. all the world
+    axes of the block of coupled axes that the pixel axis belongs to. All
+    indices are in numpy ordering convention.
+    """
+    if isinstance(wcs, LegacyCoordinates):
+        return (axis,)
+    matrix = np.asarray(wcs.axis_correlation_matrix, dtype=bool)[::-1, ::-1]
+    if pixel2world:
+        return tuple(np.nonzero(matrix[axis])[0])
+    pixel_block = np.zeros(matrix.shape[1], dtype=bool)
+    pixel_block[axis] = True
+    while True:
+        world_block = matrix[:, pixel_block].any(axis=1)
+        pixel_block_new = pixel_block | matrix[world_block, :].any(axis=0)
+        if np.array_equal(pixel_block_new, pixel_block):
+            return tuple(np.nonzero(world_block)[0])
+        pixel_block = pixel_block_new
 
 
 def _get_ndim(header):
